@@ -1,5 +1,5 @@
 // C13: rolling statistics equal their batch definition over the whole history (views over Echo, positive inputs where required)
-use crate::props::c02_history::*;
+use crate::props::c00_window::*;
 
 pub open spec fn all_positive(h: Seq<T>) -> bool { forall|i: int| 0 <= i < h.len() ==> (#[trigger] h[i]).v() > 0real }
 
